@@ -58,6 +58,8 @@ def tree():
         "only/.a/x.py": py("hid_a", 61), "only/.b/y.py": py("hid_b", 61), "only/.c/z.js": js("hidC", 61),
         # a byte order mark in front of a long function that starts on line 1
         "bom.py": ("\ufeff" + py("bom_fn", 33)).encode("utf-8"),
+        # a .gitignore BELOW the root is not an exclusion source of the tool: neither for scan nor for check of that folder
+        "src/deep/.gitignore": "more.js\n", "inc/.gitignore": "*.h\n",
         # a file that is nothing but one 31-line function, last line not newline-terminated (file-size shortcuts misjudge it)
         "bare31.py": py("bare_fn", 31).rstrip("\n"),
         "src/bare31.js": js("bareJs", 31).rstrip("\n"),
